@@ -65,30 +65,40 @@ def _ask(fn):
         return ("exc", type(e).__name__)
 
 
-def _asked_again(o, first, fn, again=3):
-    """The same OBJECT asked the same question again (objects never change): same answer?"""
-    return all(_ask(fn) == first for _ in range(again)) and _ask(lambda: o.is_valid)[0] == "ok"
+def _asked_again(o, first, fn, other=None, again=3):
+    """The same OBJECT asked the same question again (objects never change): same answer? And asked the
+    OTHER question (the other flag value) in between: the answer a fresh object gives to that question,
+    and afterwards the first answer once more?"""
+    same = all(_ask(fn) == first for _ in range(again)) and _ask(lambda: o.is_valid)[0] == "ok"
+    if other is not None:
+        on_same, on_fresh = other
+        same = same and _ask(lambda: on_same(o)) == _ask(on_fresh) and _ask(fn) == first
+    return same
 
 
-def _answer_of(o, fn):
+def _answer_of(o, fn, other=None):
     """Outcome of fn() on object o, with the note whether asking again gives the same outcome."""
     try:
         r = fn()
     except Exception as e:  # noqa: BLE001
-        e.verif_again = _asked_again(o, ("exc", type(e).__name__), fn)
+        e.verif_again = _asked_again(o, ("exc", type(e).__name__), fn, other)
         raise
     return {"ret": r is True, "rett": type(r).__name__, "val": C(str(o)),
-            "again": _asked_again(o, ("ok", r is True), fn)}
+            "again": _asked_again(o, ("ok", r is True), fn, other)}
 
 
 def iban_validate(a):
-    o = IBAN(T(a["t"]), allow_invalid=True)
-    return _answer_of(o, lambda: o.validate(a.get("vb", False)))
+    t, vb = T(a["t"]), a.get("vb", False)
+    o = IBAN(t, allow_invalid=True)
+    return _answer_of(o, lambda: o.validate(vb),
+                      (lambda x: x.validate(not vb), lambda: IBAN(t, allow_invalid=True).validate(not vb)))
 
 
 def iban_is_valid(a):
-    o = IBAN(T(a["t"]), allow_invalid=True)
-    return _answer_of(o, lambda: o.is_valid)
+    t = T(a["t"])
+    o = IBAN(t, allow_invalid=True)
+    return _answer_of(o, lambda: o.is_valid,
+                      (lambda x: x.validate(True), lambda: IBAN(t, allow_invalid=True).validate(True)))
 
 
 def bic_new(a):
@@ -97,13 +107,17 @@ def bic_new(a):
 
 
 def bic_validate(a):
-    o = BIC(T(a["t"]), allow_invalid=True)
-    return _answer_of(o, lambda: o.validate(a.get("strict", False)))
+    t, strict = T(a["t"]), a.get("strict", False)
+    o = BIC(t, allow_invalid=True)
+    return _answer_of(o, lambda: o.validate(strict),
+                      (lambda x: x.validate(not strict), lambda: BIC(t, allow_invalid=True).validate(not strict)))
 
 
 def bic_is_valid(a):
-    o = BIC(T(a["t"]), allow_invalid=True)
-    return _answer_of(o, lambda: o.is_valid)
+    t = T(a["t"])
+    o = BIC(t, allow_invalid=True)
+    return _answer_of(o, lambda: o.is_valid,
+                      (lambda x: x.validate(True), lambda: BIC(t, allow_invalid=True).validate(True)))
 
 
 def iban_fields(o):
